@@ -14,8 +14,12 @@ for id in $ids; do
   prop=${id%%-*}
   if ! git -C $R apply --check $(pwd)/seeded/$id/patch.diff 2>/dev/null; then echo "$id does-not-apply" | tee build/seed_results/$id.txt; continue; fi
   git -C $R apply $(pwd)/seeded/$id/patch.diff
+  # the evidence file of the property must keep describing the UNCHANGED tree: set it aside while the seeded tree is checked
+  [ -f evidence/$prop.json ] && cp evidence/$prop.json build/seed_results/.evidence_$prop.json
   timeout 3600 ./check $prop --tier quick > build/seed_results/$id.log 2>&1    # always rebuilds: tie T re-translates the source
   rc=$?
+  cp evidence/$prop.json build/seed_results/$id.evidence.json 2>/dev/null
+  [ -f build/seed_results/.evidence_$prop.json ] && mv build/seed_results/.evidence_$prop.json evidence/$prop.json
   git -C $R checkout -- .
   what=$(/venv/bin/python - "$id" <<'PY'
 import json, re, sys, os
